@@ -1,27 +1,20 @@
-(** C05 — statements not proved yet (kept as definitions; nothing here is used elsewhere). *)
+(** C05 — statements not proved yet (kept as definitions; nothing here is used elsewhere).
+    (Proved since and moved to Properties.v: the unbounded no-conflict theorems, the unbounded
+    refutation after #ENDHEIGHT, the head pointer of the folded chain log.) *)
 From Coq Require Import List Arith Bool.
-From Kardia Require Import C05.Model C05.ProofsRecover.
+From Kardia Require Import C05.Model C05.ProofsRecover C05.ProofsSearch.
 Import ListNotations.
 
-(** the closed-form image of ProofsRecover is the fold of the observed log (genesis boot writes,
-    then the pipeline of every height): needs i_pending to be ignored / carried *)
-Definition open_image_of_chain_log : Prop :=
-  forall txs archive n,
-    i_head (fold_left (fun im e => apply_entry e im)
-              (flat_map (fun h => pipeline txs archive h) (seq 1 n)) (img_after txs archive 0))
-    = i_head (img_after txs archive n).
+(** second crash, in general: recovering from the image extended by ANY prefix of what the
+    recovering life itself writes before its first new signature gives the same answer
+    (Properties.C05_second_crash covers the head-pointer rewrite only) *)
+Definition open_second_crash_general : Prop :=
+  forall sc tl im (life : list entry) k,
+    i_head im <> None -> sorted_markers (filter notrot (i_wal im)) ->
+    (forall e, In e (firstn k life) -> match e with EDb (WHeadPtr) => True | EWal recs => forallb (fun r => match r with RStep | RTimeout _ _ _ | REnd 0 => true | _ => false end) recs = true | _ => False end) ->
+    r_sigs (recover sc tl (fold_left (fun im e => apply_entry e im) (firstn k life) im)) = r_sigs (recover sc tl im).
 
-(** unbounded versions of the bounded no-conflict theorems *)
-Definition open_no_conflict_empty_blocks : Prop :=
-  forall txs sc n i, i <= 9 -> txs (S n) = false -> sc_appfixed sc = true ->
-    no_conflict (recover sc TSynced (crash_img txs true n i)) = true.
-
-Definition open_no_conflict_before_proposal : Prop :=
-  forall txs sc n i, i <= 1 -> sc_appfixed sc = true ->
-    no_conflict (recover sc TSynced (crash_img txs true n i)) = true.
-
-(** unbounded refutations: for every n the crash points 7..9 conflict as soon as the block of
-    height n+1 carries transactions *)
-Definition open_after_endheight_refuted : Prop :=
-  forall txs sc n i, 7 <= i <= 9 -> txs (S n) = true ->
-    no_conflict (recover sc TSynced (crash_img txs true n i)) = false.
+(** Not stated here because the model cannot express it: "continues exactly like a twin that never
+    crashed" beyond the signature requests of the start height (Properties.C05_twin_signatures) and
+    the equality of application hashes the harness checks on every run (oracle diverges-from-twin):
+    that needs the application (EVM, staking contracts) as a function. *)
